@@ -289,9 +289,8 @@ def printDoc (cfg : Cfg) : Nat → St → Doc → Mode → Option St
       alignLoop cfg pd mb mcw mode true st es
 
 /-- `Printer::print`: the documents in break mode, then the remaining line suffixes -/
-def print (cfg : Cfg) (fuel : Nat) (ds : List Doc) : Option (List Nat) := do
-  let st ← docsWith (printDoc cfg fuel) St.init ds .brk
-  let st ← if st.suffixes.isEmpty then some st else flushWith (printDoc cfg fuel) st
-  some st.out
+def print (cfg : Cfg) (fuel : Nat) (ds : List Doc) : Option (List Nat) :=
+  (docsWith (printDoc cfg fuel) St.init ds .brk).bind fun st =>
+  (if st.suffixes.isEmpty then some st else flushWith (printDoc cfg fuel) st).map (·.out)
 
 end Printer
